@@ -32,6 +32,7 @@ ALPHA = [
     (R1, None, 1), (R1, None, 2), (R1, (("A", 1),), 1), (None, (("A", 1),), 1), (None, (("A", 1),), F(1, 2)),
     (R2, None, 1), (R1, (("A", 2),), 1), (None, None, 1), (R3, None, F(3, 2)), (None, (("A", 1), ("B", F(1, 2))), 1),
     (None, (("B", F(1, 2)), ("A", 1)), 2),  # same scores as the previous entry, other key order
+    (R2, None, F(1, 999983)), (R2, None, F(5, 999979)),  # same content as entry 5; the exact sum has a denominator near 10**12
 ]
 
 
@@ -52,7 +53,7 @@ def build_cases(tier, seed):
     _CASES = cs
     meta = {
         "family": f"ballots: {len(RANKINGS)} rankings x {len(SCORES)} score dicts x {len(WEIGHTS)} weights x id x voter_set (all combinations); "
-                  f"profiles: every sequence of length <= {maxlen} over an 11-ballot alphabet mixing ranked, scored, ranked+scored and empty ballots "
+                  f"profiles: every sequence of length <= {maxlen} over a 13-ballot alphabet mixing ranked, scored, ranked+scored and empty ballots "
                   "(i.e. every multiset in every order); == and + on all pairs of sequences of length <= 2; duplicate candidate tuples",
         "assumptions": ["runs with VOTEKIT_VERIF unset (no hook)",
                         "profile equality is judged on positive-weight contents",
